@@ -202,7 +202,7 @@ func (b *bracket) edge(blk *cfg.Block, i int, s State) State {
 		return s
 	}
 	// find the acquire statement in this block and its error variable
-	for _, n := range blk.Nodes {
+	for _, n := range b.fl.condNodes(blk) {
 		as, ok := n.(*ast.AssignStmt)
 		if !ok || len(as.Rhs) != 1 {
 			continue
@@ -303,6 +303,10 @@ func ruleC10DriveBracket(c *Ctx) {
 			}
 			if st&bR != 0 && st&bDR == 0 {
 				leaks = append(leaks, "the drive reader (GetReader without CloseReader)")
+			}
+			if st&bR == 0 && st&bDR != 0 && st&bFreeR != 0 {
+				// the deferred close was registered before the acquisition was known to have succeeded
+				leaks = append(leaks, "a CloseReader that runs although the reader was not acquired (the tape manager unlocks a mutex it does not hold: fatal error)")
 			}
 			construct := fmt.Sprintf("return#%d", ord)
 			if len(leaks) > 0 {
